@@ -70,6 +70,24 @@ Section Compensation.
     else if fv then a + all else a + tails.           (* TILDE:  cut-off 1_{|x|<V}, V = 0 (fin. var.) or 1 *)
 End Compensation.
 
+(* MarkovChainLevyCopula.initialisation (markovchainlevycopula.py:132-167): one drift per margin,
+     _process_drift[k] = model.drift()[k] + a_k + mu_tilde_k - mu_h_k,
+   a_k the margin's triplet drift after set_representation(TILDE) (the margin's OWN finite-variation flag) and
+   mu_tilde_k cut at V_k.  `fvV` is the flag the code uses for V_k: the repaired code (fix-grid2) passes the margin's own
+   flag (fvV = fv); the previous code passed the joint flag of the copula model. *)
+Definition process_drift_v (m1t : Q -> Q -> Q) (pinf model_drift : Q) (rep : Z) (fv fvV : bool) (a mu_h : Q) : Q :=
+  model_drift + a_tilde m1t pinf rep fv a + mu_tilde m1t pinf fvV - mu_h.
+
+(* one margin of a copula chain: its own first-moment integral, truncation bounds, triplet, axis and cell masses *)
+Record cmargin := {
+  cm_m1 : Q -> Q -> Q; cm_l : Q; cm_r : Q; cm_pinf : Q; cm_md : Q; cm_rep : Z; cm_fv : bool; cm_a : Q;
+  cm_xs : list Q; cm_o : nat; cm_mass : Q -> Q -> Q }.
+Definition cm_m1t (m : cmargin) : Q -> Q -> Q := tmass (cm_m1 m) (cm_l m) (cm_r m).
+Definition cm_drift (mid : Q -> Q -> Q) (m : cmargin) : Q :=
+  process_drift_v (cm_m1t m) (cm_pinf m) (cm_md m) (cm_rep m) (cm_fv m) (cm_fv m) (cm_a m)
+                  (compute_mu_h mid (cm_mass m) (cm_xs m) (cm_o m)).
+Definition copula_process_drift (mid : Q -> Q -> Q) (ms : list cmargin) : list Q := map (cm_drift mid) ms.
+
 (* ---- moments of the harness's StepMeasure *)
 Definition piece_m1 (a b : Q) (p : Q * Q * Q) : Q :=
   let '(lo, hi, d) := p in
@@ -92,3 +110,11 @@ Definition chain_sig_h2 (ps : list (Q * Q * Q)) (xs : list Q) (sigma : Q) (fv : 
   sig_h2 (tmass (step_m2 ps) (headq xs) (lastq xs)) sigma fv h.
 Definition chain_mean (ps : list (Q * Q * Q)) (xs : list Q) (o : nat) : Q :=
   mean_of_rates amid (chain_mass ps xs) xs o.
+
+(* the drift vector of a copula chain on step margins (repaired code: per-margin flag); one entry per margin:
+   (pieces, axis, origin index, model drift, representation, finite-variation flag, declared drift) *)
+Definition copula_chain_drift (ms : list (list (Q * Q * Q) * list Q * nat * Q * Z * bool * Q)) : list Q :=
+  map (fun m => match m with (ps, xs, o, md, rep, fv, a) => chain_process_drift ps xs o md rep fv a end) ms.
+Definition copula_chain_drift_joint (joint_fv : bool) (ms : list (list (Q * Q * Q) * list Q * nat * Q * Z * bool * Q)) : list Q :=
+  map (fun m => match m with (ps, xs, o, md, rep, fv, a) =>
+         process_drift_v (tmass (step_m1 ps) (headq xs) (lastq xs)) (chain_pinf xs) md rep fv joint_fv a (chain_mu_h ps xs o) end) ms.
